@@ -76,7 +76,7 @@ def calls (s : InitScript) : List Call :=
 def holdsAt (c : Case) (s : InitScript) (call : Call) (fault : Option EventId) (runV : Bool) : Bool :=
   let ic := c.at call fault runV
   let o := scriptObs s ic.eff call
-  (fault.isSome || C01.spec ic { o with trace := [], excArgs := none, cache := none }) &&
+  (fault.isSome || C01.spec ic (C01.view o)) &&
   C02.spec ic { o with cache := none }
 
 /-- the runs checked for one call: no fault; each callback of the expected trace failing; validators off -/
